@@ -139,7 +139,13 @@ def elaborate_frame(
     remove the rest of the stack trace and not replace it with anything,
     then return `PRUNE` (which is equivalent to an empty tuple).
     """
-    if "__tracebackhide__" in frame.pyframe.f_locals:
+    try:
+        hide = "__tracebackhide__" in frame.pyframe.f_locals
+    except Exception:
+        # The namespace of a class body or of exec()'d code can be any
+        # mapping, including one that doesn't support "in"
+        hide = False
+    if hide:
         frame.hide = True
     return None
 
